@@ -6,14 +6,8 @@
 package balloons
 
 // ---- C04 (balloons): allocMem asks the memory allocator and applies the zone changes of other containers ----------
-// The request constructors of libmem (option closures applied in a loop) are ASSUMED to build a fresh request with
-// the given id; NewNodeMask and getMemoryLimit only compute values.
-//@ assume-contract github.com/containers/nri-plugins/pkg/resmgr/lib/memory.PreservedContainer
-//@   modifies nothing
-//@   ensures fresh(result) && result.id == id
-//@ assume-contract github.com/containers/nri-plugins/pkg/resmgr/lib/memory.ContainerWithTypes
-//@   modifies nothing
-//@   ensures fresh(result) && result.id == id
+// The request constructors of libmem are verified in that package (a fresh request with the given id);
+// NewNodeMask and getMemoryLimit only compute values.
 //@ effect github.com/containers/nri-plugins/pkg/resmgr/lib/memory.NewNodeMask pure
 //@ effect getMemoryLimit pure
 
